@@ -89,3 +89,37 @@ Print Assumptions source_tie.
 Theorem source_tie_backends : forall W be, request_source_is_model (env_of W be) /\ response_source_is_model (env_of W be).
 Proof. intros W be. apply source_tie, backends_fwd. Qed.
 Print Assumptions source_tie_backends.
+
+(* ---- the cached-backend cell AS TRANSLATED.  `get_runtime_feature` of src/simd/runtime.rs is translated on every run
+   into the instruction language of RtProg.v (Generated/Runtime.v, G15: load / detect / store / move / if-zero /
+   return over the function's locals).  Proofs/RuntimeProg.v proves an abstract interpreter (what is known about a
+   register: 0, d, "0 or d", anything) sound for EVERY program of that language, for any number of threads and every
+   interleaving of their relaxed loads and stores (a load may return any value of the modification order not older
+   than what the thread has seen).  Run on the program of this run it accepts; hence: the cell only ever holds 0 or
+   the detected id d, every call returns, and every call returns d -- whichever thread wins the race.  (The
+   hand-written transition system above, `runtime_cell_safe`, is the same statement about the shape the function
+   had when it was written down; this one follows the source.) ---- *)
+From HV Require RtProg.
+From HV.Generated Require Runtime Cfg.
+From HV.Proofs Require RuntimeProg.
+Theorem runtime_cell_as_translated : forall d, d <> 0%N -> forall n s,
+  RtProg.reachable d Runtime.g_get_runtime_feature n s ->
+  Forall (fun v => v = 0%N \/ v = d) (RtProg.mo s) /\
+  (forall i t, nth_error (RtProg.threads s) i = Some t -> RtProg.t_k t = [] -> RtProg.t_out t = Some d) /\
+  (forall i t v, nth_error (RtProg.threads s) i = Some t -> RtProg.t_out t = Some v -> v = d).
+Proof.
+  intros d Hd. apply (RuntimeProg.acheck_sound d Hd Runtime.g_get_runtime_feature RtProg.rt_fuel).
+  vm_compute. reflexivity.
+Qed.
+Print Assumptions runtime_cell_as_translated.
+(* the three ids detect_runtime_feature can return (Generated/Cfg.v) are not 0, the cell's initial value *)
+Theorem detected_ids_nonzero : Cfg.RT_AVX2 <> 0%N /\ Cfg.RT_SSE42 <> 0%N /\ Cfg.RT_NOP <> 0%N.
+Proof. repeat split; discriminate. Qed.
+Print Assumptions detected_ids_nonzero.
+(* the interpreter is not vacuous: it rejects a cell that publishes before it has detected, and one that returns
+   what it loaded without looking at it *)
+Example runtime_checker_rejects :
+  RtProg.acheck_prog [RtProg.ILoad 0; RtProg.IStore 0; RtProg.IRet 0] = false /\
+  RtProg.acheck_prog [RtProg.ILoad 0; RtProg.IRet 0] = false /\
+  RtProg.acheck_prog [RtProg.ILoad 0; RtProg.IIf false 0 [RtProg.IDetect 0; RtProg.IStore 0] []; RtProg.IRet 0] = false.
+Proof. repeat split; vm_compute; reflexivity. Qed.
